@@ -12,8 +12,9 @@ TEMPLATES = {'imm': '#{v}', 'data': '{v}', 'addr': '{v}', 'addr_x': '{v},X', 'ad
              'iaddr_y': '({v}),Y', 'daddr': '[{v}]', 'daddr_y': '[{v}],Y', 'addr_s': '{v},S', 'iaddr_is_y': '({v},S),Y'}
 
 
-def settings(rng, proc):
-    mx = rng.choice(['11', '10', '01', '00']) if proc in ('65802', '65816') else '11'
+def settings(rng, proc, any_mx=False):
+    # the register-width setting can be given for every processor; the 8 bit ones have no such status and must not be affected by it
+    mx = rng.choice(['11', '10', '01', '00']) if proc in ('65802', '65816') else (rng.choice(['11', '11', '00', '01', '10']) if any_mx else '11')
     if proc in ('6502', '65c02'):
         variant = 'm8'
     elif proc == '65802' and mx == '11':
@@ -48,13 +49,13 @@ def sweep_lines(tab, quick):
     lines = []
     k = 0
     for proc in PROCS:
-        for mx in (['11', '10', '01', '00'] if proc in ('65802', '65816') else ['11']):
+        for mx in (['11', '10', '01', '00'] if proc in ('65802', '65816') else ['11', '00']):
             variants = ['m8'] if proc in ('6502', '65c02') else (['m8', 'm16'] if (proc == '65802' and mx == '11') else ['m16', 'm32'])
             for variant in variants:
                 for code, (mn, mode, procs) in sorted(tab.items()):
                     if asmgen.PROC_KEY[proc] not in procs:
                         continue
-                    n = asmgen.operand_bytes(mn, mode, mx)
+                    n = asmgen.operand_bytes(mn, mode, mx if proc in ('65802', '65816') else '11')
                     vals = [0] if n == 0 else asmgen.VALUE_CLASSES[n]
                     if quick:
                         vals = vals[:1] + vals[-2:]
@@ -152,7 +153,7 @@ def run(ctx, model_ok=True):
     lines += sweep_lines(tab, quick)
     for i in range(400 if quick else 20000):
         proc = rng.choice(PROCS)
-        mx, variant = settings(rng, proc)
+        mx, variant = settings(rng, proc, any_mx=True)
         b, valid = gen_bytes(rng, tab, proc, mx)
         literals = rng.choice([1, 1, 1, 0])
         # without --literals a label used as an operand has no value: refusal is then legitimate even for valid code
